@@ -260,7 +260,7 @@ def run(res, only=None):
     if only in (None, 'dist'):
         cases = common.rotate(cases_for(tier), res.seed)
         out = common.pmap(run_case, cases)
-        for c, r in zip(cases, out):
+        for c, r in common.good(cases, out, res):
             cnt = r["cnt"]
             res.add("traces_validated_against_impl", cnt["executions"])
             res.add("transitions", cnt["transitions"])
@@ -277,7 +277,7 @@ def run(res, only=None):
     if only in (None, 'select'):
         jobs = common.rotate(select_jobs(tier), res.seed)
         out = common.pmap(select_job, jobs)
-        for j, r in zip(jobs, out):
+        for j, r in common.good(jobs, out, res):
             cnt = r["cnt"]
             res.add("traces_validated_against_impl", cnt["executions"])
             res.add("transitions", cnt["transitions"])
